@@ -97,7 +97,8 @@ def model_check(coverage=False):
     """Exhaustive runs of the reference with the contract switches."""
     out = {"states": 0, "transitions": 0, "configs": {}, "coverage": {}}
     for cfg in ("KvStoreMC.cfg", "KvStoreMCWide.cfg", "KvStoreMCSets.cfg", "KvStoreMCTouch.cfg"):
-        r = vp.tlc("KvStore", cfg=cfg, workers=4, timeout=600, coverage=coverage and cfg == "KvStoreMC.cfg")
+        cov = coverage and cfg in ("KvStoreMC.cfg", "KvStoreMCTouch.cfg")
+        r = vp.tlc("KvStore", cfg=cfg, workers=4, timeout=600, coverage=cov)
         if not r["ok"]:
             # a counterexample in the model alone is a defect of the model,
             # never a verdict about the code
@@ -106,8 +107,9 @@ def model_check(coverage=False):
         out["transitions"] += r["generated"]
         out["configs"][cfg] = {"distinct": r["distinct"], "generated": r["generated"], "depth": r["depth"],
                                "wall_s": round(r["wall_s"], 1)}
-        if coverage and cfg == "KvStoreMC.cfg":
-            out["coverage"] = {k: list(v) for k, v in vp.tlc_coverage(r["out"]).items()}
+        if cov:
+            # KvStoreMC runs without the family cache (ReadGet / ReadScan disabled), KvStoreMCTouch with it
+            out["coverage"][cfg] = {k: list(v) for k, v in vp.tlc_coverage(r["out"]).items()}
     return out
 
 
@@ -159,7 +161,7 @@ def _cases_from_tlc(out, path):
 
 # bounds of the first-touch family: elements op1/op2 range over, get/scan as
 # op2, late consume, keys of op2, op2 after the empty prefix
-FT_BOUNDS = {"quick": {"FT_NE_OP": 1, "FT_OP2READS": 0, "FT_LATE": 0, "FT_NK_OP2": 1, "FT_FRESH_OP2": 0},
+FT_BOUNDS = {"quick": {"FT_NE_OP": 1, "FT_OP2READS": 0, "FT_LATE": 0, "FT_NK_OP2": 1, "FT_FRESH_OP2": 1},
              "thorough": {"FT_NE_OP": 2, "FT_OP2READS": 1, "FT_LATE": 1, "FT_NK_OP2": 2, "FT_FRESH_OP2": 1}}
 
 
@@ -469,7 +471,13 @@ def run(tier, seed):
             raise vp.ToolError(f"first-touch family is not what it claims to be: {ft_shape}")
         phases["tlc_two_lanes_s"] = round(time.time() - t_ph, 1)
         t_ft = time.time()
-        run_ft_replays(bd, wd, tmp, ft_path, ft_per_case, seed, verdict, status, stats)
+        # memory-backed directory when there is one: these runs are dominated by open / close
+        ft_tmp = tempfile.mkdtemp(prefix="vh-c11-ft-", dir="/dev/shm") if os.access("/dev/shm", os.W_OK) else tmp
+        try:
+            run_ft_replays(bd, wd, ft_tmp, ft_path, ft_per_case, seed, verdict, status, stats)
+        finally:
+            if ft_tmp != tmp:
+                shutil.rmtree(ft_tmp, ignore_errors=True)
         ft_wall = time.time() - t_ft
         t_ph = time.time()
         run_replays(bd, wd, tmp, plan, seed, verdict, status, stats)
@@ -491,7 +499,7 @@ def run(tier, seed):
                    [{"first_touch_behaviour": json.loads(l)} for l in open(ft_path).readlines()[-1:]] +
                    [{"family_byte_layout": next(l for l in layout if l["fam"] == "rawvar")["cells"][8:12]}],
         "exhaustive_configs": mc["configs"],
-        "action_coverage_KvStoreMC": mc["coverage"],
+        "action_coverage": mc["coverage"],
         "asis_switches": asis,
         "phase_wall_s": phases,
         "behaviours_from_tlc_simulation": nbeh,
@@ -575,13 +583,13 @@ def _corrupt(case, how):
                 return c
     if how == "state_val":
         for e in reversed(c["events"]):
-            if e["a"] in ("commit", "reopen", "drop") and e["state"]["wide"]:
+            if e["a"] in ("commit", "reopen", "drop") and not e.get("q") and e["state"]["wide"]:
                 w = e["state"]["wide"][0]
                 w["val"] = 3 - w["val"]
                 return c
     if how == "state_member":
         for e in reversed(c["events"]):
-            if e["a"] in ("commit", "reopen", "drop") and e["state"]["sets"]:
+            if e["a"] in ("commit", "reopen", "drop") and not e.get("q") and e["state"]["sets"]:
                 s = e["state"]["sets"][0]
                 s["els"] = s["els"][1:]
                 return c
